@@ -1014,9 +1014,9 @@ def _flat_shards(tier):
 
 
 HARNESSES = [
-    H(fmt_event, shards=_fmt_shards, timeout={"quick": 90, "thorough": 1200}),
-    H(field_event, shards=_field_shards, timeout={"quick": 120, "thorough": 1500}),
-    H(flat_event, shards=_flat_shards, timeout={"quick": 90, "thorough": 1200}, labels=("end", "flattened")),
+    H(fmt_event, shards=_fmt_shards, timeout={"quick": 120, "thorough": 1200}),
+    H(field_event, shards=_field_shards, timeout={"quick": 150, "thorough": 1500}),
+    H(flat_event, shards=_flat_shards, timeout={"quick": 150, "thorough": 1200}, labels=("end", "flattened")),
     H(unformattable, timeout={"quick": 60, "thorough": 300}),
     H(as_text, shards=lambda tier: _prod(("fsel", NFMT)), timeout={"quick": 60, "thorough": 600}),
     H(sys_fields, shards=_sys_shards, timeout={"quick": 60, "thorough": 600}),
